@@ -16,6 +16,7 @@ EXPLANATION = ('Panic-freedom itself is not statically decidable here. Decided a
                'witness schedules) the arm does not diverge; (R09.3) no RefCell guard is held across an await and event callbacks cannot '
                're-enter the server cell; (R09.4) jobs are removed only when terminated.')
 NOT_DECIDED = ['panic-freedom as a whole (depends on which message can arrive in which state); new assertion sites are inventoried, not judged']
+RELATED = {'C02': ['R02.7']}
 ASSUMPTIONS = ['feasible-pairs table (tables/feasible_pairs.json) is the trusted protocol knowledge: only pairs with a witness schedule are listed',
                'per-connection FIFO']
 
@@ -321,6 +322,9 @@ def run(ctx):
             ctx.ob('R09.9', f'{hname}|{callee_of(hb_.term[x]).split("::")[-1]} not after add_ready_task', x not in after,
                    f'{hname}: {callee_of(hb_.term[x]).split("::")[-1]} unwraps TaskQueue.prefill; it must not run after add_ready_task, which disposes prefill sets of lower priority (lost worker with a high-priority assigned and a low-priority prefilled task)', hb_.loc(x))
     ctx.floor('R09.9', nops, 3, 'prefill-set operations in reactor handlers')
+    # ---- R09.10
+    ctx.rule('R09.10', 'no task keeps naming a removed worker: on_remove_worker finds the tasks being retracted from the lost worker by a scan of the whole task map')
+    shared_rules.retracting_scan_whole_map(ctx, 'R09.10')
     # ---- R09.6 / R09.7
     ctx.rule('R09.6', 'no panicking task lookup inside a loop whose body may remove tasks from the core (ids collected before the loop can be gone when their turn comes)')
     ctx.rule('R09.7', 'TaskQueue::remove asserts membership in one arm: every call site must be guarded by a test that implies the task is queue-resident (or no arm may diverge)')
